@@ -132,6 +132,18 @@ class Layer(BaseObject):
         self._lib = None
         self._unicodeData = None
 
+    # -----------
+    # Dirty State
+    # -----------
+
+    def _set_dirty(self, value):
+        if not value and self._lib is not None:
+            # the layer info has just been read or written
+            self._lib._dirty = False
+        super(Layer, self)._set_dirty(value)
+
+    dirty = property(BaseObject._get_dirty, _set_dirty, doc=BaseObject.dirty.__doc__)
+
     # --------------
     # Parent Objects
     # --------------
